@@ -186,4 +186,18 @@ def check(ctx: Ctx) -> str:
     from . import c03
 
     ctx.run_imported("C03", {"R6"}, c03.check)
+    ctx.rule("R5", "building an undefined message never runs user code on the object: object_type_repr and _undefined_message compare the hinted object only by identity (`is`), never with == / in")
+    ctx.use("utils")
+    for spec, var in (("utils:object_type_repr", "obj"), ("runtime:Undefined._undefined_message", "self._undefined_obj")):
+        fo = repo.func(spec)
+        bad = []
+        for cmp_ in ast.walk(fo.node):
+            if isinstance(cmp_, ast.Compare):
+                sides = [cmp_.left] + list(cmp_.comparators)
+                if any(ast.unparse(s_) == var for s_ in sides) and not all(isinstance(o, (ast.Is, ast.IsNot)) for o in cmp_.ops):
+                    bad.append(cmp_)
+        ctx.check(not bad, f"identity:{spec}", spec, f"`{ast.unparse(bad[0])}`" if bad else "identity comparisons only",
+                  f"{spec.split(':')[1]} compares the object an attribute was missing on with `{ast.unparse(bad[0]) if bad else ''}`: == / in call its __eq__, which for array-like or expression objects raises or returns a non-bool - every operation on the undefined (arithmetic, str() of a DebugUndefined) then raises that error instead of UndefinedError / printing the hint",
+                  fo.loc(bad[0]) if bad else fo.loc())
+
     return __doc__ or ""
